@@ -4,6 +4,7 @@
      xrefs.CellRange.expand_ref                           (quoting, '$', prefix choice)
      xrefs.ScopedNameRefCache.calculate_named_ranges /
        _calculate_name_scopes / _calculate_scope_types    (header label scopes)
+   (the tree with the C09 repairs: fixes/C09-*.patch)
    over an abstract naming configuration [doc], and an INDEPENDENT resolver
    ([resolve_table], [resolve_text], [resolve_label]) written from the statement
    of property C09, not from expand_ref.
@@ -57,27 +58,34 @@ Definition axis_first (t : tbl) (a : axis) : nat :=
 Definition axis_enabled (t : tbl) (a : axis) : bool :=
   match a with ROW => negb (Nat.eqb (t_nhc t) 0) | COL => negb (Nat.eqb (t_nhr t) 0) end.
 
-(* _calculate_name_scopes, first half: per index the label if it occurs once
-   among the body labels of this axis of this table, else None *)
-Fixpoint local_names_from (body : list str) (first idx : nat) (labs : list str) : list (option str) :=
+(* _header_names: the labels of all body rows and body columns of a table (an axis
+   contributes only when its header line exists) *)
+Definition body_labels (t : tbl) (a : axis) : list str :=
+  if axis_enabled t a then skipn (axis_first t a) (axis_labels t a) else [].
+Definition header_names (t : tbl) : list str := body_labels t ROW ++ body_labels t COL.
+
+Definition is_empty (s : str) : bool := match s with [] => true | _ => false end.
+
+(* _calculate_name_scopes, first half: per index the label if it is not empty and occurs
+   once among all header names of the table, else None *)
+Fixpoint local_names_from (all : list str) (first idx : nat) (labs : list str) : list (option str) :=
   match labs with
   | [] => []
   | n :: r =>
     (if Nat.ltb idx first then None
-     else if Nat.ltb 1 (count_str n body) then None else Some n)
-    :: local_names_from body first (S idx) r
+     else if is_empty n then None
+     else if Nat.ltb 1 (count_str n all) then None else Some n)
+    :: local_names_from all first (S idx) r
   end.
 Definition local_names (t : tbl) (a : axis) : list (option str) :=
   let labs := axis_labels t a in
   if axis_enabled t a
-  then local_names_from (skipn (axis_first t a) labs) (axis_first t a) 0 labs
+  then local_names_from (header_names t) (axis_first t a) 0 labs
   else map (fun _ => None) labs.
 
-Fixpoint somes {A} (l : list (option A)) : list A :=
-  match l with [] => [] | Some x :: r => x :: somes r | None :: r => somes r end.
-
-(* the names a table adds to doc_name_refs / sheet_name_refs (rows, then columns) *)
-Definition contributed (t : tbl) : list str := somes (local_names t ROW) ++ somes (local_names t COL).
+(* the names a table adds to doc_name_refs / sheet_name_refs (rows, then columns): every
+   non-empty body label, repeated ones included *)
+Definition contributed (t : tbl) : list str := filter (fun n => negb (is_empty n)) (header_names t).
 Definition sheet_contrib (s : sheet) : list str := flat_map contributed (snd s).
 Definition doc_contrib (d : doc) : list str := flat_map sheet_contrib d.
 
@@ -222,63 +230,71 @@ Definition py_str_Z (z : Z) : str :=
   if (z <? 0)%Z then c_minus :: py_str_N (Z.to_N (- z)) else py_str_N (Z.to_N z).
 Definition py_str_Z1 (r : Z) : str := py_str_Z (r + 1).
 
-(* what expand_ref does when handed row_range[row_end] = None:
-   f"${None}" if absolute, else `x in None` raises TypeError *)
-Definition none_text : str := [78; 111; 110; 101].
-Definition crash_attr : pyexn := OtherCrash 1.   (* AttributeError / TypeError on a None range entry *)
+Definition scope_is_doc (r : sref) : bool := match s_scope r with DOCUMENT => true | _ => false end.
 
-Definition scope_is_doc (o : option sref) : result bool :=
-  match o with
-  | None => Err crash_attr
-  | Some r => Ok (match s_scope r with DOCUMENT => true | _ => false end)
-  end.
-Definition expand_opt (d : doc) (from to : tid) (o : option sref) (is_abs : bool) : result str :=
-  match o with
-  | Some r => do p <- expand_ref d from to (RName r) is_abs true ; Ok (snd p)
-  | None => if is_abs then Ok (quote_ref (dollar true ++ none_text)) else Err crash_attr
-  end.
-
-Definition format_axis_named (d : doc) (from to : tid) (rng : list (option sref))
-           (s : sref) (e : option Z) (s_abs e_abs : bool) : result rtext :=
-  match e with
-  | None => do p <- expand_ref d from to (RName s) s_abs false ; Ok (fst p, snd p, None)
-  | Some ev =>
-    do nop <- (if match s_scope s with DOCUMENT => true | _ => false end then Ok true
-               else do o <- lookup_range rng ev ; scope_is_doc o) ;
-    do p <- expand_ref d from to (RName s) s_abs nop ;
-    do o2 <- lookup_range rng ev ;
-    do q <- expand_opt d from to o2 e_abs ;
-    Ok (fst p, snd p, Some q)
-  end.
+(* single named line *)
+Definition format_named_single (d : doc) (from to : tid) (s : sref) (s_abs : bool) : result rtext :=
+  do p <- expand_ref d from to (RName s) s_abs false ; Ok (fst p, snd p, None).
+(* span between two named lines *)
+Definition format_named_span (d : doc) (from to : tid) (s e : sref) (s_abs e_abs : bool) : result rtext :=
+  do p <- expand_ref d from to (RName s) s_abs (scope_is_doc s || scope_is_doc e) ;
+  do q <- expand_ref d from to (RName e) e_abs true ;
+  Ok (fst p, snd p, Some (snd q)).
 
 Definition format_row_range (d : doc) (c : crange) (rs : Z) : result rtext :=
   do rng <- ranges d (to_t c) ROW ;
   do o <- lookup_range rng rs ;
-  match o with
-  | None =>
-    let e := match row_end c with None => rs | Some e => e end in
-    let e_abs := match row_end c with None => rs_abs c | Some _ => re_abs c end in
+  let numeric (e : Z) (e_abs : bool) :=
     do p <- expand_ref d (from_t c) (to_t c) (RText (py_str_Z1 rs)) (rs_abs c) false ;
     do q <- expand_ref d (from_t c) (to_t c) (RText (py_str_Z1 e)) e_abs true ;
-    Ok (fst p, snd p, Some (snd q))
-  | Some s => format_axis_named d (from_t c) (to_t c) rng s (row_end c) (rs_abs c) (re_abs c)
+    Ok (fst p, snd p, Some (snd q)) in
+  match row_end c with
+  | None =>
+    match o with
+    | None => numeric rs (rs_abs c)                        (* _format_numeric_row *)
+    | Some s => format_named_single d (from_t c) (to_t c) s (rs_abs c)
+    end
+  | Some e =>
+    match o with
+    | None => numeric e (re_abs c)
+    | Some s =>
+      do o2 <- lookup_range rng e ;
+      match o2 with
+      | None => numeric e (re_abs c)
+      | Some s2 => format_named_span d (from_t c) (to_t c) s s2 (rs_abs c) (re_abs c)
+      end
+    end
   end.
 
 Definition format_col_range (d : doc) (c : crange) (cs : Z) : result rtext :=
   do rng <- ranges d (to_t c) COL ;
   do o <- lookup_range rng cs ;
-  match o with
-  | None =>
+  let numeric (e : option Z) :=
     do a <- xl_col_to_name cs (cs_abs c) ;
     do p <- expand_ref d (from_t c) (to_t c) (RText a) false false ;
-    match col_end c with
+    match e with
     | None => Ok (fst p, snd p, None)
     | Some e =>
       do b <- xl_col_to_name e (ce_abs c) ;
       do q <- expand_ref d (from_t c) (to_t c) (RText b) false true ;
       Ok (fst p, snd p, Some (snd q))
+    end in
+  match col_end c with
+  | None =>
+    match o with
+    | None => numeric None
+    | Some s => format_named_single d (from_t c) (to_t c) s (cs_abs c)
     end
-  | Some s => format_axis_named d (from_t c) (to_t c) rng s (col_end c) (cs_abs c) (ce_abs c)
+  | Some e =>
+    match o with
+    | None => numeric (Some e)
+    | Some s =>
+      do o2 <- lookup_range rng e ;
+      match o2 with
+      | None => numeric (Some e)
+      | Some s2 => format_named_span d (from_t c) (to_t c) s s2 (cs_abs c) (ce_abs c)
+      end
+    end
   end.
 
 Definition format_cell_range (d : doc) (c : crange) (rs cs : Z) : result rtext :=
@@ -313,22 +329,29 @@ Definition flat (t : rtext) : str :=
   flat_map (fun p => p ++ sep2) pre ++ a ++ match b with Some x => c_colon :: x | None => [] end.
 
 (* ================= independent resolver ================= *)
-(* indices of the elements satisfying p *)
+(* written from the statement of the property, not from expand_ref *)
+(* indices (counted from i) of the elements satisfying p *)
 Fixpoint find_idx {A} (p : A -> bool) (l : list A) (i : nat) : list nat :=
   match l with
   | [] => []
   | x :: r => (if p x then [i] else []) ++ find_idx p r (S i)
   end.
 
+Definition name_is (n : str) (t : tbl) : bool := str_eqb n (t_name t).
+Definition sheet_is (n : str) (s : sheet) : bool := str_eqb n (fst s).
+
 Definition tables_in_sheet (d : doc) (si : nat) (n : str) : list tid :=
   match nth_error d si with
-  | Some s => map (pair si) (find_idx (fun t => str_eqb (t_name t) n) (snd s) 0)
+  | Some s => map (pair si) (find_idx (name_is n) (snd s) 0)
   | None => []
   end.
-Definition tables_in_doc (d : doc) (n : str) : list tid :=
-  flat_map (fun si => tables_in_sheet d si n) (seq 0 (length d)).
-Definition sheets_named (d : doc) (n : str) : list nat :=
-  find_idx (fun s : sheet => str_eqb (fst s) n) d 0.
+Fixpoint tables_from (si : nat) (ss : list sheet) (n : str) : list tid :=
+  match ss with
+  | [] => []
+  | s :: r => map (pair si) (find_idx (name_is n) (snd s) 0) ++ tables_from (S si) r n
+  end.
+Definition tables_in_doc (d : doc) (n : str) : list tid := tables_from 0 d n.
+Definition sheets_named (d : doc) (n : str) : list nat := find_idx (sheet_is n) d 0.
 
 (* which tables does a prefix name, seen from the host table?
      no prefix        -> the host table itself
@@ -354,42 +377,95 @@ Definition qualify (d : doc) (host tgt : tid) (r : str) (is_abs : bool) : result
   expand_ref d host tgt (RText r) is_abs false.
 
 (* ---- labels ---- *)
-(* the rows / columns of one table that carry the label: body indices of an enabled axis *)
+(* the rows / columns of one table that carry the label: body indices of an axis whose header line exists *)
 Definition label_hits_axis (t : tbl) (a : axis) (n : str) : list (axis * nat) :=
   if axis_enabled t a then
-    map (fun i => (a, i))
+    map (pair a)
         (filter (fun i => Nat.leb (axis_first t a) i)
-                (find_idx (fun l => str_eqb l n) (axis_labels t a) 0))
+                (find_idx (str_eqb n) (axis_labels t a) 0))
   else [].
 Definition label_hits_tbl (t : tbl) (n : str) : list (axis * nat) :=
   label_hits_axis t ROW n ++ label_hits_axis t COL n.
-Definition label_hits (d : doc) (t : tid) (n : str) : list (tid * (axis * nat)) :=
+Definition hit : Type := tid * (axis * nat).
+Definition label_hits (d : doc) (t : tid) (n : str) : list hit :=
   match get_tbl d t with
-  | Some tb => map (fun h => (t, h)) (label_hits_tbl tb n)
+  | Some tb => map (pair t) (label_hits_tbl tb n)
   | None => []
   end.
-Definition sheet_tids (d : doc) (si : nat) : list tid :=
+Fixpoint tbl_hits_from (si ti : nat) (ts : list tbl) (n : str) : list hit :=
+  match ts with
+  | [] => []
+  | t :: r => map (pair (si, ti)) (label_hits_tbl t n) ++ tbl_hits_from si (S ti) r n
+  end.
+Definition sheet_hits (d : doc) (si : nat) (n : str) : list hit :=
   match nth_error d si with
-  | Some s => map (pair si) (seq 0 (length (snd s)))
+  | Some s => tbl_hits_from si 0 (snd s) n
   | None => []
   end.
-Definition doc_tids (d : doc) : list tid := flat_map (sheet_tids d) (seq 0 (length d)).
+Fixpoint doc_hits_from (si : nat) (ss : list sheet) (n : str) : list hit :=
+  match ss with
+  | [] => []
+  | s :: r => tbl_hits_from si 0 (snd s) n ++ doc_hits_from (S si) r n
+  end.
+Definition doc_hits (d : doc) (n : str) : list hit := doc_hits_from 0 d n.
 
 (* a label with a prefix is looked up in the table(s) the prefix names; a bare label
    in the innermost scope that knows it: host table, then host sheet, then document *)
-Definition resolve_label (d : doc) (host : tid) (prefix : list str) (n : str)
-  : list (tid * (axis * nat)) :=
+Definition resolve_label (d : doc) (host : tid) (prefix : list str) (n : str) : list hit :=
   match prefix with
   | [] =>
     match label_hits d host n with
     | (_ :: _) as l => l
     | [] =>
-      match flat_map (fun t => label_hits d t n) (sheet_tids d (fst host)) with
+      match sheet_hits d (fst host) n with
       | (_ :: _) as l => l
-      | [] => flat_map (fun t => label_hits d t n) (doc_tids d)
+      | [] => doc_hits d n
       end
     end
   | _ => flat_map (fun t => label_hits d t n) (resolve_table d host prefix)
+  end.
+
+(* ---- spans of two header names a:b ---- *)
+(* a span names a table in which both names are labels (the scope found for one end is used
+   for the other); with a prefix: in the table(s) the prefix names; bare: innermost scope first *)
+Definition line : Type := axis * nat.
+Definition span_hits_tbl (t : tbl) (n1 n2 : str) : list (line * line) :=
+  list_prod (label_hits_tbl t n1) (label_hits_tbl t n2).
+Definition shit : Type := tid * (line * line).
+Definition span_hits (d : doc) (t : tid) (n1 n2 : str) : list shit :=
+  match get_tbl d t with
+  | Some tb => map (pair t) (span_hits_tbl tb n1 n2)
+  | None => []
+  end.
+Fixpoint tbl_span_from (si ti : nat) (ts : list tbl) (n1 n2 : str) : list shit :=
+  match ts with
+  | [] => []
+  | t :: r => map (pair (si, ti)) (span_hits_tbl t n1 n2) ++ tbl_span_from si (S ti) r n1 n2
+  end.
+Definition sheet_span (d : doc) (si : nat) (n1 n2 : str) : list shit :=
+  match nth_error d si with
+  | Some s => tbl_span_from si 0 (snd s) n1 n2
+  | None => []
+  end.
+Fixpoint doc_span_from (si : nat) (ss : list sheet) (n1 n2 : str) : list shit :=
+  match ss with
+  | [] => []
+  | s :: r => tbl_span_from si 0 (snd s) n1 n2 ++ doc_span_from (S si) r n1 n2
+  end.
+Definition doc_span (d : doc) (n1 n2 : str) : list shit := doc_span_from 0 d n1 n2.
+
+Definition resolve_span (d : doc) (host : tid) (prefix : list str) (n1 n2 : str) : list shit :=
+  match prefix with
+  | [] =>
+    match span_hits d host n1 n2 with
+    | (_ :: _) as l => l
+    | [] =>
+      match sheet_span d (fst host) n1 n2 with
+      | (_ :: _) as l => l
+      | [] => doc_span d n1 n2
+      end
+    end
+  | _ => flat_map (fun t => span_hits d t n1 n2) (resolve_table d host prefix)
   end.
 
 (* reading a printed label body back: undo quote_ref, then the '$' mark *)
@@ -398,19 +474,22 @@ Fixpoint untriple (fuel : nat) (s : str) : str :=
   | O => s
   | S f =>
     match s with
-    | 39 :: 39 :: 39 :: r => 39 :: untriple f r
-    | c :: r => c :: untriple f r
+    | a :: ((b :: c :: r) as t) =>
+      if (a =? c_quote) && (b =? c_quote) && (c =? c_quote) then c_quote :: untriple f r
+      else a :: untriple f t
+    | a :: r => a :: untriple f r
     | [] => []
     end
   end.
 Definition unquote_ref (b : str) : str :=
   match b with
-  | 39 :: r =>
+  | q :: r =>
     match rev r with
-    | 39 :: ri => let inner := rev ri in
-                  if existsb is_op_char inner then inner else untriple (length b) b
-    | _ => untriple (length b) b
+    | q2 :: ri =>
+      if (q =? c_quote) && (q2 =? c_quote) && existsb is_op_char (rev ri) then rev ri
+      else untriple (length b) b
+    | [] => untriple (length b) b
     end
-  | _ => untriple (length b) b
+  | [] => []
   end.
 Definition decode_label (b : str) : bool * str := opt_dollar (unquote_ref b).
